@@ -231,7 +231,7 @@ open Reval
 /-! ### the induction over renderings -/
 
 section
-variable {o : Oracle} {sf : F64 → Str}
+variable {o : Oracle}
 
 def MB (o : Oracle) (e : Expr) (T : List Tok) : Prop := (∀ k, k ≤ lvl e → S o k e T) ∧ FirstGE (lvl e) T
 def MR (o : Oracle) (k : Nat) (e : Expr) (T : List Tok) : Prop := S o k e T ∧ FirstGE k T
@@ -275,29 +275,22 @@ theorem atom {e : Expr} {T : List Tok} (hl : lvl e = 9) (hF : FirstGE 9 T)
 theorem Fol_noLP {k : Nat} {rest : List Tok} (h : Fol k rest) : NoLP rest := by
   intro r' e; exact (h _ _ e).2.2 rfl
 
-theorem case_lit (v : Value) (h : LitOK o sf v) : MB o (.lit v) [litTok sf v] := by
-  refine atom rfl ?_ (fun rest hfol => ?_)
-  · have key : ∀ t : Tok, t ≠ kwIf → t ≠ minus → t ≠ bang → t ≠ .p [']'] → FirstGE 9 [t] :=
-      fun t h1 h2 h3 h4 => ⟨t, [], rfl, fun _ => h1, fun _ => ⟨h2, h3⟩, h4⟩
-    cases v
-    case bool b => cases b <;> exact key _ (by simp [litTok, kwIf]) (by simp [litTok, minus]) (by simp [litTok, bang]) (by simp [litTok])
-    case none => exact key _ (by simp [litTok, kwIf]) (by simp [litTok, minus]) (by simp [litTok, bang]) (by simp [litTok])
-    case int n => exact key _ (by simp [litTok, kwIf]) (by simp [litTok, minus]) (by simp [litTok, bang]) (by simp [litTok])
-    case str s => exact key _ (by simp [litTok, kwIf]) (by simp [litTok, minus]) (by simp [litTok, bang]) (by simp [litTok])
-    case float f => exact key _ (by simp [litTok, kwIf]) (by simp [litTok, minus]) (by simp [litTok, bang]) (by simp [litTok])
-    case dec d => exact key _ (by simp [litTok, kwIf]) (by simp [litTok, minus]) (by simp [litTok, bang]) (by simp [litTok])
-    all_goals exact absurd h (by simp [LitOK])
-  · cases v
-    case bool b => cases b <;> simp only [litTok, List.cons_append, List.nil_append]; exact PTerm_false; exact PTerm_true
-    case none => exact PTerm_none (Fol_noLP hfol)
-    case int n => exact PTerm_lit (by simp [litTok, IsLitTok]) h
-    case str s => exact PTerm_lit (by simp [litTok, IsLitTok]) h
-    case float f => exact PTerm_lit (by simp [litTok, IsLitTok]) h
-    case dec d => exact PTerm_lit (by simp [litTok, IsLitTok]) h
-    all_goals exact absurd h (by simp [LitOK])
-
 theorem first_cons (j : Nat) (t : Tok) (r : List Tok) (h1 : t ≠ kwIf) (h2 : t ≠ minus) (h3 : t ≠ bang) (h4 : t ≠ .p [']']) :
     FirstGE j (t :: r) := ⟨t, r, rfl, fun _ => h1, fun _ => ⟨h2, h3⟩, h4⟩
+
+theorem case_litTok (t : Tok) (v : Value) (x : List Tok) (ht : IsLitTok t) (h : Lit.ofTok o t = .ok v x) : MB o (.lit v) [t] := by
+  refine atom rfl ?_ (fun rest _ => PTerm_lit ht h)
+  cases t <;> simp only [IsLitTok] at ht
+  all_goals exact first_cons _ _ _ (by simp [kwIf]) (by simp [minus]) (by simp [bang]) (by simp)
+
+theorem case_litTrue : MB o (.lit (.bool true)) [.kw ['t', 'r', 'u', 'e']] :=
+  atom rfl (first_cons _ _ _ (by simp [kwIf]) (by simp [minus]) (by simp [bang]) (by simp)) (fun _ _ => PTerm_true)
+
+theorem case_litFalse : MB o (.lit (.bool false)) [.kw ['f', 'a', 'l', 's', 'e']] :=
+  atom rfl (first_cons _ _ _ (by simp [kwIf]) (by simp [minus]) (by simp [bang]) (by simp)) (fun _ _ => PTerm_false)
+
+theorem case_litNone : MB o (.lit .none) [.kw ['n', 'o', 'n', 'e']] :=
+  atom rfl (first_cons _ _ _ (by simp [kwIf]) (by simp [minus]) (by simp [bang]) (by simp)) (fun _ hfol => PTerm_none (Fol_noLP hfol))
 
 theorem case_ref (n : Str) : MB o (.ref n) [.ident n] :=
   atom rfl (first_cons _ _ _ (by simp [kwIf]) (by simp [minus]) (by simp [bang]) (by simp))
@@ -366,15 +359,13 @@ theorem case_indexKey (e : Expr) (T : List Tok) (k : Str) (ih : MR o 8 e T) :
   have := ih.1 (dot :: .ident k :: rest) e' r' (Fol_dot _) (by rw [hL8]; exact LIdx_key hL)
   simpa using this
 
-theorem case_indexPos (e : Expr) (T : List Tok) (n : Nat) (hn : n ≤ u64Max) (ih : MR o 8 e T) :
-    MB o (.index e (.pos n)) (T ++ [dot, .index (Disp.showNat n)]) := by
+theorem case_indexPos (e : Expr) (T : List Tok) (ds : Str) (hn : Str.ofDigits ds ≤ u64Max) (ih : MR o 8 e T) :
+    MB o (.index e (.pos (Str.ofDigits ds))) (T ++ [dot, .index ds]) := by
   refine index_node rfl (FirstGE_append ih.2 _) ?_
   intro rest e' r' _ hL
   have hL8 : Lk o 8 = LIdx o := by simp [Lk]
   rw [hL8] at hL
-  have hd := (showNat_spec n).1
-  have := ih.1 (dot :: .index (Disp.showNat n) :: rest) e' r' (Fol_dot _)
-    (by rw [hL8]; exact LIdx_pos (by rw [hd]; exact hn) (by rw [hd]; exact hL))
+  have := ih.1 (dot :: .index ds :: rest) e' r' (Fol_dot _) (by rw [hL8]; exact LIdx_pos hn hL)
   simpa using this
 
 theorem case_ite (c t e : Expr) (Tc Tt Te : List Tok) (ihc : MR o 0 c Tc) (iht : MR o 0 t Tt) (ihe : MR o 0 e Te) :
@@ -545,9 +536,9 @@ theorem case_mcons (k : Str) (e : Expr) (es : List (Str × Expr)) (T Ts : List T
   simpa using this
 
 /-- the induction: every rendering is parsed back, at every level the table allows for it -/
-theorem R_sound {k : Nat} {e : Expr} {T : List Tok} (h : R o sf k e T) : MR o k e T :=
-  @R.rec o sf (fun e T _ => MB o e T) (fun k e T _ => MR o k e T) (fun xs T _ => ML o xs T) (fun kvs T _ => MM o kvs T)
-    (fun v h => case_lit v h) (fun n => case_ref n) (fun n => case_sym n)
+theorem R_sound {k : Nat} {e : Expr} {T : List Tok} (h : R o k e T) : MR o k e T :=
+  @R.rec o (fun e T _ => MB o e T) (fun k e T _ => MR o k e T) (fun xs T _ => ML o xs T) (fun kvs T _ => MM o kvs T)
+    (fun t v x ht h => case_litTok t v x ht h) case_litTrue case_litFalse case_litNone (fun n => case_ref n) (fun n => case_sym n)
     (fun e T k _ ih => case_indexKey e T k ih) (fun e T n _ hn ih => case_indexPos e T n hn ih)
     (fun f a T _ ih => case_call f a T ih) (fun k op e T hk _ ih => case_func k op e T hk ih)
     (fun c t e Tc Tt Te _ _ _ i1 i2 i3 => case_ite c t e Tc Tt Te i1 i2 i3)
@@ -564,7 +555,7 @@ theorem R_sound {k : Nat} {e : Expr} {T : List Tok} (h : R o sf k e T) : MR o k 
 /-- **parse ∘ render = id** at the token level: a token list that renders `e` under the precedence table — with the
     parentheses the table requires and any redundant ones — is parsed to exactly `e` with nothing left over, for every
     sufficiently large fuel -/
-theorem parse_render {e : Expr} {T : List Tok} (h : R o sf 0 e T) : ∃ f0, ∀ f, f0 ≤ f → pIf o f T = .ok e [] :=
+theorem parse_render {e : Expr} {T : List Tok} (h : R o 0 e T) : ∃ f0, ∀ f, f0 ≤ f → pIf o f T = .ok e [] :=
   S0_end (R_sound h).1
 
 end
